@@ -42,7 +42,7 @@ def run(harnesses, jobs=8, harness_timeout="10m", overall_timeout=3600, extra=()
         res["errors"] = compile_err[:10]
     else:
         res["status"] = "ok"
-    res["log_tail"] = "\n".join(l for l in log.split("\n") if not l.startswith("warning") and not re.match(r"^\s*(-->|\||=|\d+ \|)", l))[-6000:]
+    res["log_tail"] = "\n".join(l for l in log.split("\n") if l.strip() and l.strip() != "..." and not l.startswith("warning") and not re.match(r"^\s*(-->|\||=|\d+ \|)", l))[-3000:]
     if os.path.exists(out_json):
         try:
             d = json.load(open(out_json))
